@@ -4,6 +4,9 @@ import (
 	"context"
 	"errors"
 	"fmt"
+	"github.com/risor-io/risor/compiler"
+	"github.com/risor-io/risor/parser"
+	"github.com/risor-io/risor/vm"
 	"io"
 	"io/fs"
 	goos "os"
@@ -99,6 +102,9 @@ type modSpec struct {
 	Deps     []int
 	BumpDeps bool
 	DepSpell []int
+	// SharedBase: another module of the tree has the same file name in another
+	// directory; such modules are always imported under an alias
+	SharedBase bool
 }
 
 func (m *modSpec) last() string {
@@ -111,6 +117,9 @@ func (m *modSpec) last() string {
 // importStmt renders an import of module m that binds a module object to the
 // returned name.
 func importStmt(m *modSpec, spelling int, alias string) (stmt, bind string) {
+	if m.SharedBase && spelling%5 < 2 {
+		spelling = 2 + spelling%5
+	}
 	dotted := strings.ReplaceAll(m.Path, "/", ".")
 	hasDir := strings.Contains(m.Path, "/")
 	switch spelling % 5 {
@@ -152,12 +161,15 @@ func moduleSource(mods []*modSpec, i int) string {
 		binds = append(binds, bind)
 	}
 	b.WriteString("state := 0\n")
+	b.WriteString("func bump() { state = state + 1; return state }\n")
+	b.WriteString("func get() { return state }\n")
+	// the body uses its own functions before the point where it may fail (net
+	// effect on state: none)
+	b.WriteString("bump()\nstate = get() - 1\n")
 	// the host can make the body fail half-way (after state, before the rest)
 	fmt.Fprintf(&b, "maybe_fail(%q)\n", m.Path)
 	fmt.Fprintf(&b, "name := %q\n", m.Path)
 	fmt.Fprintf(&b, "shared := %d\n", i)
-	b.WriteString("func bump() { state = state + 1; return state }\n")
-	b.WriteString("func get() { return state }\n")
 	if m.BumpDeps {
 		for _, bind := range binds {
 			fmt.Fprintf(&b, "%s.bump()\n", bind)
@@ -203,16 +215,34 @@ type c14Prog struct {
 func genModules(g *sim.Stream) []*modSpec {
 	n := g.Range(1, 6)
 	var mods []*modSpec
+	// in a third of the trees file names repeat across directories
+	repeat := g.Chance(1, 3)
+	used := map[string]bool{}
 	for i := 0; i < n; i++ {
 		m := &modSpec{}
-		switch g.Intn(4) {
-		case 0:
-			m.Path = fmt.Sprintf("pkg/m%d", i)
-		case 1:
-			m.Path = fmt.Sprintf("pkg/sub/m%d", i)
-		default:
-			m.Path = fmt.Sprintf("m%d", i)
+		base := i
+		if repeat {
+			base = g.Intn(2)
 		}
+		for try := 0; ; try++ {
+			switch (g.Intn(4) + try) % 4 {
+			case 0:
+				m.Path = fmt.Sprintf("pkg/m%d", base)
+			case 1:
+				m.Path = fmt.Sprintf("pkg/sub/m%d", base)
+			case 2:
+				m.Path = fmt.Sprintf("lib/m%d", base)
+			default:
+				m.Path = fmt.Sprintf("m%d", base)
+			}
+			if !used[m.Path] {
+				break
+			}
+			if try >= 4 {
+				base = 10 + i
+			}
+		}
+		used[m.Path] = true
 		for d := 0; d < i; d++ {
 			if g.Chance(1, 3) {
 				m.Deps = append(m.Deps, d)
@@ -221,6 +251,13 @@ func genModules(g *sim.Stream) []*modSpec {
 		}
 		m.BumpDeps = g.Bool()
 		mods = append(mods, m)
+	}
+	bases := map[string]int{}
+	for _, m := range mods {
+		bases[m.last()]++
+	}
+	for _, m := range mods {
+		m.SharedBase = bases[m.last()] > 1
 	}
 	return mods
 }
@@ -623,7 +660,55 @@ func runC14(rc *fw.RunCtx) {
 	}
 
 	ctx, cancel := context.WithCancel(context.Background())
-	out := evalTask(s, "main", ctx, main, opts)
+	// A pooled VM: the host compiles the script once and evaluates the same code
+	// object twice on one VM, the second time with another import root holding
+	// different files under the same names. The second evaluation must load
+	// from ITS root only and start from fresh module state.
+	pooled := mode >= 3 && !shared && prog.FaultMod < 0 && g.Chance(1, 4)
+	var out *EvalOutcome
+	var out3 *EvalOutcome
+	th3 := &tickHost{ticks: map[string]int{}, failLeft: map[string]int{}}
+	sfsB := NewSimFS()
+	opensAfterFirst := -1
+	if pooled {
+		rc.Hit("mode_pooled_vm_root_swap")
+		for i, m := range prog.Mods {
+			// same names, other contents: every body reports itself as "B:<path>"
+			sfsB.Files[m.Path+".risor"] = strings.Replace(moduleSource(prog.Mods, i), fmt.Sprintf("tick(%q)", m.Path), fmt.Sprintf("tick(%q)", "B:"+m.Path), 1)
+		}
+		impB := importer.NewFSImporter(importer.FSImporterOptions{GlobalNames: names, SourceFS: sfsB, Extensions: []string{".risor", ".rsr"}})
+		g3 := baseGlobals(map[string]any{"tick": th3.builtin(), "maybe_fail": th3.failBuiltin()})
+		opts3 := []risor.Option{risor.WithoutDefaultGlobals(), risor.WithGlobals(g3), risor.WithConcurrency(), risor.WithImporter(impB)}
+		machine, err := vm.NewEmpty()
+		if err != nil {
+			panic("harness: " + err.Error())
+		}
+		cfg := risor.NewConfig(opts...)
+		astMain, err := parser.Parse(context.Background(), main)
+		if err != nil {
+			panic("harness: " + err.Error())
+		}
+		codeMain, err := compiler.Compile(astMain, cfg.CompilerOpts()...)
+		if err != nil {
+			panic("harness: " + err.Error())
+		}
+		out = &EvalOutcome{}
+		out3 = &EvalOutcome{}
+		s.Go("main", "main", func() {
+			guard(out, func() (object.Object, error) {
+				return risor.EvalCode(ctx, codeMain, append(append([]risor.Option{}, opts...), risor.WithVM(machine))...)
+			})
+			opensAfterFirst = len(sfs.Opens)
+			if useLocal {
+				opensAfterFirst = len(s.Notes)
+			}
+			guard(out3, func() (object.Object, error) {
+				return risor.EvalCode(ctx, codeMain, append(append([]risor.Option{}, opts3...), risor.WithVM(machine))...)
+			})
+		})
+	} else {
+		out = evalTask(s, "main", ctx, main, opts)
+	}
 	var out2 *EvalOutcome
 	if shared {
 		if prog.FaultMod >= 0 && prog.FaultKind != "body-error" {
@@ -638,7 +723,7 @@ func runC14(rc *fw.RunCtx) {
 		}
 	}
 	s.Until = func() bool {
-		return out.Done && (out2 == nil || out2.Done) && len(aliveExcept(s, "vm.watcher", "file.watcher")) == 0
+		return out.Done && (out2 == nil || out2.Done) && (out3 == nil || out3.Done) && len(aliveExcept(s, "vm.watcher", "file.watcher")) == 0
 	}
 	verdict := s.Run()
 	s.Shutdown(cancel)
@@ -769,6 +854,38 @@ func runC14(rc *fw.RunCtx) {
 		}
 		if g2 := safeInspect(out2.Result); g2 != expected {
 			rc.Violate("shared-importer/state", "second evaluation sharing the importer observed %s, import-once model says %s (first evaluation: %s)", g2, expected, out.String())
+			return
+		}
+	}
+	if out3 != nil {
+		if out3.Panic != nil || out3.Err != nil {
+			rc.Violate("pooled-vm/second-evaluation-failed", "the second evaluation of the same code on the pooled VM failed: %s", out3.String())
+			return
+		}
+		// confinement to the import root configured for THIS evaluation
+		for _, m := range prog.Mods {
+			if th3.ticks[m.Path] > 0 {
+				rc.Violate("pooled-vm/module-of-previous-root-ran", "second evaluation (import root B): the body of %s from the first evaluation's root ran", m.Path)
+				return
+			}
+		}
+		if useLocal {
+			if len(s.Notes) != opensAfterFirst {
+				rc.Violate("pooled-vm/read-from-previous-root", "second evaluation (import root B) read %d file(s) through the first evaluation's importer", len(s.Notes)-opensAfterFirst)
+				return
+			}
+		} else if len(sfs.Opens) != opensAfterFirst {
+			rc.Violate("pooled-vm/read-from-previous-root", "second evaluation (import root B) opened %v in the first evaluation's root", sfs.Opens[opensAfterFirst:])
+			return
+		}
+		for i, m := range prog.Mods {
+			if th3.ticks["B:"+m.Path] != prog.Model.ticks[i] {
+				rc.Violate("pooled-vm/once", "second evaluation on the pooled VM: module %s (root B) body ran %d times, model says %d", m.Path, th3.ticks["B:"+m.Path], prog.Model.ticks[i])
+				return
+			}
+		}
+		if g3 := safeInspect(out3.Result); g3 != expected {
+			rc.Violate("pooled-vm/state", "second evaluation of the same code on the pooled VM observed %s, import-once model says %s", g3, expected)
 			return
 		}
 	}
